@@ -134,6 +134,16 @@ class MethodMixin:
         """method of an unmodelled (library) object.  Effect table: it mutates its receiver iff it is one of the
         in-place methods or is called with inplace=True; its result is a new object; arguments are not mutated."""
         ctx = self.ctx
+        # library calls whose keyword arguments carry meaning the contract relies on (ghost call_requires = {method: {kw: [allowed literals]}})
+        top = self.frames[0].contract if self.frames and hasattr(self.frames[0], "contract") else None
+        need = (top.ghost.get("call_requires") or {}).get(name) if top is not None else None
+        if need:
+            for kw, allowed in need.items():
+                got = kwargs.get(kw, "<absent>")
+                ok = isinstance(got, (str, int, bool)) and got in allowed
+                ctx.oblige("call-pre", f"{name}.{kw} in {allowed}", z3.BoolVal(bool(ok)), top=True,
+                           info={"callee": name, "clause": f"{name}(..., {kw}=...) must be one of {allowed}; found {got!r}"})
+            ctx.ghost["seen_" + name] = True
         inplace = kwargs.get("inplace")
         mutating = name in self.MUTATING_LIB_METHODS or inplace is True or isinstance(inplace, (Opaque, SV))
         if mutating and not recv.fresh and not self.engine.modifies_allows(ctx, recv.desc):
